@@ -1986,7 +1986,7 @@ parse_citation:
 				print_const("\t<td");
 			}
 
-			if (scratch->table_cell_count < kMaxTableColumns) {
+			if (scratch->table_cell_count >= 0 && scratch->table_cell_count < kMaxTableColumns) {
 				switch (scratch->table_alignment[scratch->table_cell_count]) {
 					case 'l':
 					case 'L':
